@@ -20,6 +20,14 @@ PROPS = {
         "trusted": ["isize::unsigned_abs = Int.natAbs, `x as usize` = two's complement (Prelude)"],
         "assumptions": ["Coh for the matrix indexed (C01)"],
     },
+    "C05": {
+        "module": "Matreex.Props.C05", "harness": "C05",
+        "technique": "Lean 4 proof of the cycle-following in-place permutation for every injective self-map (two loop invariants), instantiated with the regenerated index functions (T2); induction over compositions; correspondence on all shapes up to 12x12",
+        "trusted": ["ptr::swap modelled as UB outside the buffer, visited.get_unchecked_mut as UB outside the bitmap (Model/Mem.lean, Model/Transpose.lean)",
+                    "the loop structure of transpose / switch_order / set_order is hand-modelled and tied by correspondence; AxisIndex::swap (a mutating method) is modelled by hand",
+                    "zero-sized element types are represented by Subsingleton types"],
+        "assumptions": ["Coh and size <= usize::MAX for the matrix operated on (C01)"],
+    },
     "C08": {
         "module": "Matreex.Props.C08", "harness": "C08",
         "technique": "Lean 4 theorems over unbounded naturals about the regenerated size/capacity decision code (T2) + table theorem over the re-extracted check/allocation order of all 17 allocating functions (T1) + correspondence on the boundary grid",
